@@ -228,6 +228,10 @@ fn c15_scenario(rng: &mut Rng, i: usize) -> Synth {
 		4 => ErrBehaviour::Slow(1 + rng.below(5)),
 		_ => ErrBehaviour::Ignore,
 	};
+	// an elevation / critical error at the second or third error, with the hooks of the earlier ones kept alive
+	if matches!(s.err, ErrBehaviour::ElevateNth(k) | ErrBehaviour::CriticalNth(k) if k >= 1) && rng.chance(1, 2) {
+		s.retain_hooks = true;
+	}
 	// make sure there are enough erroring events, in bursts larger than the error queue
 	let burst: Vec<EvSpec> = (0..(3 + rng.usize(12))).map(|_| ev(Priority::Normal, Verdict::Error, 0)).collect();
 	s.producers.push(burst);
